@@ -23,6 +23,7 @@ func init() {
 			Level: "other",
 			Explanation: "Decides: (list) each HandlerList.Filter<K> iterates hl.handlers from Front() by Next() only, invokes <K>Filter.Filter<K> on the element with the function's own arguments, leaves the loop on the edge verdict != BfeHandlerGoOn without any path back to the filter call, continues only through Next(), and returns the last verdict (or BfeHandlerGoOn for an empty chain); each Add<K>Filter only PushBack()s New<K>Filter(callback) under a successful type assertion and no other container/list mutator is called in bfe_module (registration order = call order); generic<K>Filter.Filter<K> forwards to the registered function; AddFilter dispatches on handlerType to the matching Add<K>Filter, looks the list up in the receiver's own table (the field NewBfeCallbacks fills and GetHandlerList serves), and reports success only as the verdict of an Add<K>Filter call (rule add-registers: every error value it returns is an Add<K>Filter result, a constructed error, or nil on an edge where an Add<K>Filter result was tested nil — no de-duplication or other shortcut may drop a filter silently); the point->kind table of NewBfeCallbacks agrees with the documentation table and with the Filter<K> method called on GetHandlerList(point) at each of the 9 call sites in bfe_server (each under hl != nil). " +
 				"(verdicts) at each call site the verdicts the property names are compared (request hooks: Close, Finish, Redirect, Response; forward: Finish; response hooks: Finish; accept hooks: Close) and from each verdict arm: Close => action closeDirectly on every path to return and no path to a response write (Redirect, sendResponse, any ResponseWriter method), to clusterInvoke, or (accept hooks) to the TLS handshake / readRequest / serveRequest; Finish => action closeAfterReply on every path to return and no path to clusterInvoke / RoundTrip / Balance; Redirect => every path calls Redirect(rw, …), none reaches clusterInvoke, and no feasible path (isRedirect flag propagated) calls sendResponse; Response => no path to findProduct/findCluster/clusterInvoke and sendResponse is reachable with a response operand that includes the module's response. conn.serveRequest suppresses finishRequest for closeDirectly and reports keep-alive only if both ServeHTTP and FinishReq returned keepAlive; conn.serve leaves the request loop when serveRequest reports no keep-alive; the deferred c.close() is registered before the accept hooks. " +
+				"Robustness: reactions that sit in private helpers of the hook function count at the helper's call (Redirect on all paths of the helper; response writes / backend calls anywhere in it; an action taken from a helper that returns one constant); the action cell is the function's first named result whatever its name. " +
 				"Not covered: what modules do inside callbacks; verdicts a hook does not compare (e.g. Close at HandleForward/HandleReadResponse) are treated by bfe as GoOn — reported as a note, not decided; HTTP/2 and SPDY call ServeHTTP through their own response writers (only the action value is checked here); the bytes of the reply.",
 			RuleText:    "obligations = per Filter<K>/Add<K>Filter/generic<K>Filter function the sibling clauses; each return of AddFilter; per callback point the table rows; per Filter* call site in bfe_server the kind agreement, the nil guard, each required verdict and each reaction clause of each compared verdict; the action consumers in http_conn.go",
 			Assumptions: []string{"container/list preserves insertion order for PushBack/Front/Next", "response writes in bfe_server go through Redirect, ReverseProxy.sendResponse or methods of the ResponseWriter parameter"},
@@ -59,6 +60,7 @@ const (
 var c48kinds = []string{"Accept", "Request", "Forward", "Response", "Finish"}
 
 func runC48(c *core.Ctx) {
+	defer nxEnter(c)()
 	if c.P.Pkg(c48mod) == nil {
 		c.Missing(c48mod)
 		return
@@ -265,7 +267,7 @@ func c48list(c *core.Ctx, goOn int64) {
 			}
 			okGuard := false
 			if ta != nil {
-				okGuard = core.HasGuard(pb.(ssa.Instruction).Block(), func(g core.Guard) bool {
+				okGuard = nxHolds(pb.(ssa.Instruction).Block(), func(g core.Guard) bool {
 					ex, isEx := g.Cond.(*ssa.Extract)
 					return isEx && ex.Tuple == ta && ex.Index == 1 && g.Pol
 				})
@@ -340,7 +342,7 @@ func c48list(c *core.Ctx, goOn int64) {
 			ok := okK && len(calls) == 1
 			if ok {
 				call := calls[0]
-				ok = core.HasGuard(call.(ssa.Instruction).Block(), func(g core.Guard) bool {
+				ok = nxHolds(call.(ssa.Instruction).Block(), func(g core.Guard) bool {
 					x, op, kv, isCmp := nxCmp(g.Cond, g.Pol)
 					return isCmp && op == token.EQL && kv == want && strings.HasSuffix(core.Render(x), ".handlerType")
 				})
@@ -528,7 +530,7 @@ func c48sites(c *core.Ctx, verdict map[string]int64, table map[int64]int64) {
 			k, inTable := table[pt]
 			c.Check("site-kind", s.key, call.Pos(), inTable && k == kindVal[kind],
 				fmt.Sprintf("Filter%s is called on the handler list of %s, which is created for another kind of filter: every registered filter would be rejected by the type switch", kind, s.point))
-			nonNil := core.HasGuard(call.Block(), func(g core.Guard) bool {
+			nonNil := nxHolds(call.Block(), func(g core.Guard) bool {
 				bo, ok := g.Cond.(*ssa.BinOp)
 				if !ok || !isNilConst(bo.Y) || bo.X != hl {
 					return false
@@ -629,10 +631,24 @@ func c48isVer(v, ver ssa.Value) bool {
 
 // c48actionCell finds the spilled named result `action` of fn.
 func c48actionCell(fn *ssa.Function) *ssa.Alloc {
+	// the result named `action`; otherwise (renamed) the first named int result
 	for _, l := range fn.Locals {
 		if l.Comment == "action" {
 			return l
 		}
+	}
+	rs := fn.Signature.Results()
+	for i := 0; i < rs.Len(); i++ {
+		name := rs.At(i).Name()
+		if b, ok := rs.At(i).Type().Underlying().(*types.Basic); !ok || b.Kind() != types.Int || name == "" || name == "_" {
+			continue
+		}
+		for _, l := range fn.Locals {
+			if l.Comment == name {
+				return l
+			}
+		}
+		break
 	}
 	return nil
 }
@@ -648,7 +664,9 @@ func c48reactions(c *core.Ctx, s *c48site, closeDirectly, closeAfterReply int64)
 		}
 		return nil
 	}()
-	isRespWrite := func(in ssa.Instruction) bool {
+	// events inside a private helper of fn count at the helper's call (helper extraction)
+	may := func(pred func(ssa.Instruction) bool) func(ssa.Instruction) bool { return nxLiftMay(fn, pred) }
+	isRespWrite := may(func(in ssa.Instruction) bool {
 		call, ok := in.(ssa.CallInstruction)
 		if !ok {
 			return false
@@ -657,31 +675,35 @@ func c48reactions(c *core.Ctx, s *c48site, closeDirectly, closeAfterReply int64)
 		if core.CallIs(cc, c48srv+".Redirect", c48srv+".ReverseProxy.sendResponse", "io.WriteString") {
 			return true
 		}
-		if rwParam != nil && cc.IsInvoke() && core.StripConv(cc.Value) == rwParam {
+		if rwParam != nil && cc.IsInvoke() && core.StripConv(nxArgOf(cc.Value)) == rwParam {
 			return true
 		}
 		return false
-	}
-	isBackend := func(in ssa.Instruction) bool {
+	})
+	isRedirectCall := func(in ssa.Instruction) bool { return nxIsCall(in, c48srv+".Redirect") }
+	isSendResponse := may(func(in ssa.Instruction) bool { return nxIsCall(in, c48srv+".ReverseProxy.sendResponse") })
+	isBackend0 := func(in ssa.Instruction) bool {
 		if nxIsCall(in, c48srv+".ReverseProxy.clusterInvoke", "bfe_http.RoundTripper.RoundTrip", "bfe_balance/bal_gslb.BalanceGslb.Balance") {
 			return true
 		}
 		call, ok := in.(ssa.CallInstruction)
 		return ok && call.Common().IsInvoke() && call.Common().Method.Name() == "RoundTrip"
 	}
-	isRouting := func(in ssa.Instruction) bool {
-		return isBackend(in) || nxIsCall(in, c48srv+".BfeServer.findProduct", c48srv+".BfeServer.findCluster")
-	}
-	isServe := func(in ssa.Instruction) bool {
-		return nxIsCall(in, c48srv+".conn.readRequest", c48srv+".conn.serveRequest", "bfe_tls.Conn.Handshake") || isRespWrite(in)
-	}
+	isBackend := may(isBackend0)
+	isRouting := may(func(in ssa.Instruction) bool {
+		return isBackend0(in) || nxIsCall(in, c48srv+".BfeServer.findProduct", c48srv+".BfeServer.findCluster")
+	})
+	isServe0 := may(func(in ssa.Instruction) bool {
+		return nxIsCall(in, c48srv+".conn.readRequest", c48srv+".conn.serveRequest", "bfe_tls.Conn.Handshake")
+	})
+	isServe := func(in ssa.Instruction) bool { return isServe0(in) || isRespWrite(in) }
 	storesAction := func(want int64) func(ssa.Instruction) bool {
 		return func(in ssa.Instruction) bool {
 			st, ok := in.(*ssa.Store)
 			if !ok || cell == nil || st.Addr != cell {
 				return false
 			}
-			k, ok := nxConstInt(st.Val)
+			k, ok := nxConstResult(st.Val)
 			return ok && k == want
 		}
 	}
@@ -702,7 +724,7 @@ func c48reactions(c *core.Ctx, s *c48site, closeDirectly, closeAfterReply int64)
 				if !ok || st.Addr != cell {
 					return false
 				}
-				k, ok := nxConstInt(st.Val)
+				k, ok := nxConstResult(st.Val)
 				return !ok || k != want
 			})
 			if over != nil {
@@ -740,11 +762,43 @@ func c48reactions(c *core.Ctx, s *c48site, closeDirectly, closeAfterReply int64)
 			bad := nxBlockReach(arm, nil, isBackend)
 			c.Check("verdict-finish", key+":no-backend", pos, bad == nil, "after BfeHandlerFinish at "+s.point+" a backend call (clusterInvoke/Balance/RoundTrip) is reachable")
 		case "Redirect":
-			bad := nxBlockReach(arm, func(in ssa.Instruction) bool { return nxIsCall(in, c48srv+".Redirect") }, core.IsReturn)
+			bad := nxBlockReach(arm, nxLiftMust(fn, isRedirectCall), core.IsReturn)
 			okArg := true
-			for _, call := range core.Calls(fn, c48srv+".Redirect") {
-				if call.(ssa.Instruction).Block() == arm && rwParam != nil && core.StripConv(call.Common().Args[0]) != rwParam {
-					okArg = false
+			for _, g := range nxRegion(fn) {
+				for _, call := range core.Calls(g, c48srv+".Redirect") {
+					// the call, or the call of the helper it sits in, is in the verdict arm
+					inArm := call.(ssa.Instruction).Block() == arm
+					if g != fn && !inArm {
+						if pr := nxProgOf(fn); pr != nil {
+							for _, site := range pr.CallSites(g) {
+								inArm = inArm || site.Block() == arm
+							}
+						}
+					}
+					if !inArm || rwParam == nil {
+						continue
+					}
+					a0 := core.StripConv(call.Common().Args[0])
+					if g == fn {
+						okArg = okArg && a0 == rwParam
+						continue
+					}
+					// in a helper: the writer must be the helper's parameter that is bound to rw at the arm's call
+					pi := -1
+					for i, hp := range g.Params {
+						if ssa.Value(hp) == a0 {
+							pi = i
+						}
+					}
+					if pr := nxProgOf(fn); pi < 0 || pr == nil {
+						okArg = false
+					} else {
+						for _, site := range pr.CallSites(g) {
+							if site.Block() == arm && (pi >= len(site.Common().Args) || core.StripConv(site.Common().Args[pi]) != rwParam) {
+								okArg = false
+							}
+						}
+					}
 				}
 			}
 			c.Check("verdict-redirect", key+":redirects", pos, bad == nil && okArg, "BfeHandlerRedirect at "+s.point+": a path returns without calling Redirect(rw, …)")
@@ -754,7 +808,7 @@ func c48reactions(c *core.Ctx, s *c48site, closeDirectly, closeAfterReply int64)
 			n := 0
 			complete := nxEnumPaths(arm, s.armIf[v].Block(), 2, 3000, nil, func(p *core.Path) {
 				n++
-				if p.Has(func(in ssa.Instruction) bool { return nxIsCall(in, c48srv+".ReverseProxy.sendResponse") }) && sent == "" {
+				if p.Has(isSendResponse) && sent == "" {
 					sent = pathSig(p)
 				}
 			})
@@ -809,13 +863,13 @@ func c48consumers(c *core.Ctx) {
 			nfin := 0
 			for _, call := range core.Calls(sr, c48srv+".response.finishRequest") {
 				nfin++
-				if !core.HasGuard(call.(ssa.Instruction).Block(), func(g core.Guard) bool { return isCD(g, false) }) {
+				if !nxHolds(call.(ssa.Instruction).Block(), func(g core.Guard) bool { return isCD(g, false) }) {
 					okFin = false
 				}
 			}
 			okPrep := false
 			for _, call := range core.Calls(sr, c48srv+".response.prepareForCloseConn") {
-				okPrep = core.HasGuard(call.(ssa.Instruction).Block(), func(g core.Guard) bool { return isCD(g, true) })
+				okPrep = nxHolds(call.(ssa.Instruction).Block(), func(g core.Guard) bool { return isCD(g, true) })
 			}
 			c.Check("action-honoured", "serveRequest:closeDirectly", serveCall.Pos(), okFin && nfin > 0 && okPrep,
 				"serveRequest must call res.finishRequest() (which flushes a reply) only when ServeHTTP's action is not closeDirectly, and prepareForCloseConn() when it is")
